@@ -325,3 +325,5 @@ Ltac box_goals tac :=
 (* the extended-real layer (zero-density current points / proposals, on C05's special-value model of mh_step)
    is required here only so that the targeted build of the check compiles it; nothing above uses it *)
 From LV Require Analytic.IWLSExt.
+(* source tie (tools/py2gallina_c06.py): required, not imported, so that the targeted build compiles it *)
+From LV Require Analytic.GenC06Tie.
